@@ -291,6 +291,22 @@ def _split_tuple_assigns(fn: ast.AST) -> None:
                     blk[i:i + 1] = [ast.copy_location(ast.Assign(targets=[t], value=v, lineno=st.lineno), st) for t, v in zip(st.targets[0].elts, st.value.elts)]
                     i += len(st.value.elts)
                     continue
+            # `r, c = x.shape` (or a local holding x.shape) -> r = x.shape[0]; c = x.shape[1]   (extents are unpacked by position;
+            # the length check the unpacking implies is not a behaviour any property speaks about)
+            if isinstance(st, ast.Assign) and len(st.targets) == 1 and isinstance(st.targets[0], ast.Tuple) and all(isinstance(t, ast.Name) for t in st.targets[0].elts):
+                src = st.value
+                is_shape = isinstance(src, ast.Attribute) and src.attr == 'shape' and _simple(src)
+                if isinstance(src, ast.Name):
+                    defs = [n for n in ast.walk(fn) if isinstance(n, ast.Assign) and len(n.targets) == 1 and isinstance(n.targets[0], ast.Name) and n.targets[0].id == src.id]
+                    nst = sum(1 for n in ast.walk(fn) if isinstance(n, ast.Name) and n.id == src.id and isinstance(n.ctx, (ast.Store, ast.Del)))
+                    is_shape = len(defs) == 1 and nst == 1 and isinstance(defs[0].value, ast.Attribute) and defs[0].value.attr == 'shape' and _simple(defs[0].value)
+                if is_shape and src is not None and not any(isinstance(t, ast.Name) and isinstance(src, ast.Name) and t.id == src.id for t in st.targets[0].elts):
+                    blk[i:i + 1] = [ast.copy_location(ast.Assign(targets=[t], value=ast.copy_location(ast.Subscript(value=copy.deepcopy(src), slice=ast.Constant(value=k_), ctx=ast.Load()), src),
+                                                                 lineno=st.lineno), st) for k_, t in enumerate(st.targets[0].elts)]
+                    for x in blk[i:i + len(st.targets[0].elts)]:
+                        ast.fix_missing_locations(x)
+                    i += len(st.targets[0].elts)
+                    continue
             # `a, b = (x1, y1) if c else (x2, y2)` -> if c: a = x1; b = y1 else: a = x2; b = y2
             if isinstance(st, ast.Assign) and len(st.targets) == 1 and isinstance(st.targets[0], ast.Tuple) and isinstance(st.value, ast.IfExp) \
                     and isinstance(st.value.body, ast.Tuple) and isinstance(st.value.orelse, ast.Tuple) \
@@ -453,6 +469,53 @@ def _split_versions(fn: ast.AST, keep: set[str] | None = None) -> bool:
     return done
 
 
+def _coalesce_branch_copy(fn: ast.AST, keep: set[str] | None = None) -> bool:
+    """N22: `if c: ...; v = e else: v = b` at the top level of a function, where v is a new local with no other
+    binding and b is a local that is not read after the if: v is b (the branch that re-binds assigns b itself)."""
+    if not isinstance(fn, (ast.FunctionDef, ast.AsyncFunctionDef)):
+        return False
+    done = False
+    blk = fn.body
+    for k, st in enumerate(list(blk)):
+        if not (isinstance(st, ast.If) and st.body and st.orelse):
+            continue
+        la, lb = st.body[-1], st.orelse[-1]
+        for x, y in ((la, lb), (lb, la)):
+            if not (isinstance(x, ast.Assign) and isinstance(y, ast.Assign) and len(x.targets) == 1 and len(y.targets) == 1
+                    and isinstance(x.targets[0], ast.Name) and isinstance(y.targets[0], ast.Name) and x.targets[0].id == y.targets[0].id and isinstance(y.value, ast.Name)):
+                continue
+            v, b = x.targets[0].id, y.value.id
+            if v == b or v in (keep or ()):
+                continue
+            stores_v = [n for n in ast.walk(fn) if isinstance(n, ast.Name) and n.id == v and isinstance(n.ctx, (ast.Store, ast.Del))]
+            if len(stores_v) != 2:
+                continue
+            a_ = fn.args
+            params = {p_.arg for p_ in a_.posonlyargs + a_.args + a_.kwonlyargs}
+            if v in params:
+                continue
+            nested = {n_.id for f_ in ast.walk(fn) if isinstance(f_, (ast.FunctionDef, ast.AsyncFunctionDef, ast.Lambda)) and f_ is not fn for n_ in ast.walk(f_) if isinstance(n_, ast.Name)}
+            if v in nested or b in nested:
+                continue
+            after = [n for s_ in blk[k + 1:] for n in ast.walk(s_) if isinstance(n, ast.Name) and n.id == b]
+            before_v = [n for s_ in blk[:k] for n in ast.walk(s_) if isinstance(n, ast.Name) and n.id == v]
+            inside_v = [n for n in ast.walk(st) if isinstance(n, ast.Name) and n.id == v and isinstance(n.ctx, ast.Load)]
+            if after or before_v or inside_v:
+                continue
+            for n in ast.walk(fn):
+                if isinstance(n, ast.Name) and n.id == v:
+                    n.id = b
+            holder = st.orelse if y is lb else st.body
+            holder.remove(y)
+            if not st.orelse:
+                pass
+            if not st.body:
+                st.body = [ast.copy_location(ast.Pass(), st)]
+            done = True
+            break
+    return done
+
+
 def _collapse_rmw(fn: ast.AST, keep: set[str] | None = None) -> bool:
     """N19: `t = L; t op= e; L = t` (t a temporary used nowhere else, L an attribute or subscript) is `L op= e`:
     the same load, in-place operator and store that the augmented assignment to L performs."""
@@ -544,6 +607,7 @@ def _fold(fn: ast.AST, keep: set[str] | None = None) -> None:
                 tgt = ast.copy_location(ast.Attribute(value=o, attr=key.value, ctx=ast.Store()), st.value)
                 blk[k] = ast.copy_location(ast.Assign(targets=[tgt], value=v, lineno=st.lineno), st)
     _collapse_rmw(fn, keep)
+    _coalesce_branch_copy(fn, keep)
 
 
 def _root_name(e: ast.AST) -> str | None:
@@ -611,6 +675,8 @@ def _self_field(e: ast.expr) -> ast.expr | None:
             return e
     if isinstance(e, ast.Subscript) and isinstance(e.value, ast.Name) and isinstance(e.slice, (ast.Constant, ast.Name)):
         return e
+    if isinstance(e, ast.Subscript) and isinstance(e.slice, ast.Constant) and isinstance(e.value, ast.Attribute) and e.value.attr == 'shape' and _simple(e.value):
+        return e          # an extent: x.shape[k]
     return None
 
 
@@ -640,6 +706,14 @@ def _copy_prop(block: list[ast.stmt], mutable: set[str], in_init: bool, keep: se
             frozen = isinstance(fld, ast.Attribute) and not in_init and '*' not in mutable and not any(a_ in mutable for a_ in chain)
             while not frozen and j > i + 1 and _impure_between(block[i + 1:j], base):
                 j -= 1    # longest pure prefix: later reads keep using the local, which is still assigned
+            # the first impure statement itself: when it is a simple statement with a single call, every read of the local
+            # in it is evaluated before that call runs
+            if not frozen and j < len(block) and isinstance(block[j], (ast.Assign, ast.Expr, ast.Return, ast.AugAssign)) \
+                    and v not in _stores(block[j]) and base not in _stores(block[j]) and (key is None or key not in _stores(block[j])) \
+                    and sum(1 for n_ in ast.walk(block[j]) if isinstance(n_, (ast.Call, ast.Await, ast.Yield, ast.YieldFrom))) == 1 \
+                    and not any(isinstance(n_, (ast.Lambda, ast.ListComp, ast.SetComp, ast.DictComp, ast.GeneratorExp, ast.NamedExpr)) for n_ in ast.walk(block[j])) \
+                    and not _impure_between(block[i + 1:j], base):
+                j += 1
             seg = block[i + 1:j]
             if seg:
                 sub = _Sub({v: st.value})
@@ -823,6 +897,88 @@ def _drop_else(fn: ast.AST) -> None:
     fix(fn.body)  # type: ignore[attr-defined]
 
 
+def _hoist_walrus(fn: ast.AST, log: list[str]) -> None:
+    """N20: `if (x := e) <op> ...:` where the binding is the first thing the test evaluates is `x = e` followed by
+    `if x <op> ...:`; likewise for an assignment or expression statement that starts with a binding."""
+    for _owner, blk in list(_blocks(fn)):
+        k = 0
+        while k < len(blk):
+            st = blk[k]
+            holder, fld = None, None
+            if isinstance(st, ast.If):
+                holder, fld = st, 'test'
+            elif isinstance(st, (ast.Return, ast.Expr)) and st.value is not None:
+                holder, fld = st, 'value'
+            if holder is not None:
+                par, pf, idx = holder, fld, None
+                cur = getattr(holder, fld)
+                while True:
+                    if isinstance(cur, ast.NamedExpr):
+                        break
+                    if isinstance(cur, ast.Compare):
+                        par, pf, idx, cur = cur, 'left', None, cur.left
+                    elif isinstance(cur, ast.BoolOp):
+                        par, pf, idx, cur = cur, 'values', 0, cur.values[0]
+                    elif isinstance(cur, ast.UnaryOp):
+                        par, pf, idx, cur = cur, 'operand', None, cur.operand
+                    else:
+                        cur = None
+                        break
+                if isinstance(cur, ast.NamedExpr) and isinstance(cur.target, ast.Name):
+                    name = ast.copy_location(ast.Name(id=cur.target.id, ctx=ast.Load()), cur)
+                    if idx is None:
+                        setattr(par, pf, name)
+                    else:
+                        getattr(par, pf)[idx] = name
+                    asg = ast.copy_location(ast.Assign(targets=[ast.copy_location(ast.Name(id=cur.target.id, ctx=ast.Store()), cur)], value=cur.value, lineno=st.lineno), st)
+                    blk.insert(k, asg)
+                    log.append(f'{getattr(fn, "name", "?")}: binding expression hoisted out of a test')
+                    k += 1
+                    continue
+            k += 1
+
+
+def _lambda_callbacks(fn: ast.AST, log: list[str], prefer: list[str]) -> None:
+    """N21: `f.then(lambda p: e)` is `def cb(p): return e` followed by `f.then(cb)` (the nested-function spelling of a
+    completion callback; the name is the one the inventory records for this function, if any)."""
+    if not isinstance(fn, (ast.FunctionDef, ast.AsyncFunctionDef)):
+        return
+    used = {n.id for n in ast.walk(fn) if isinstance(n, ast.Name)} | {n.name for n in ast.walk(fn) if isinstance(n, (ast.FunctionDef, ast.AsyncFunctionDef))}
+    count = 0
+    for _owner, blk in list(_blocks(fn)):
+        if isinstance(_owner, (ast.FunctionDef, ast.AsyncFunctionDef)) and _owner is not fn:
+            continue
+        k = 0
+        while k < len(blk):
+            st = blk[k]
+            if isinstance(st, (ast.Return, ast.Assign, ast.Expr)) and st.value is not None:
+                for c in ast.walk(st.value):
+                    if isinstance(c, ast.Call) and isinstance(c.func, ast.Attribute) and c.func.attr == 'then' and len(c.args) == 1 and not c.keywords \
+                            and isinstance(c.args[0], ast.Lambda):
+                        lam = c.args[0]
+                        if lam.args.defaults or lam.args.kw_defaults or lam.args.vararg or lam.args.kwarg:
+                            continue
+                        name = next((nm for nm in prefer if nm not in used), None)
+                        if name is None:
+                            count += 1
+                            name = f'_kfv_callback{count}'
+                            while name in used:
+                                count += 1
+                                name = f'_kfv_callback{count}'
+                        used.add(name)
+                        d = ast.FunctionDef(name=name, args=lam.args, body=[ast.copy_location(ast.Return(value=lam.body), lam)], decorator_list=[], returns=None, type_comment=None)
+                        if hasattr(ast, 'TypeVar'):
+                            d.type_params = []      # type: ignore[attr-defined]
+                        ast.copy_location(d, st)
+                        c.args[0] = ast.copy_location(ast.Name(id=name, ctx=ast.Load()), lam)
+                        blk.insert(k, d)
+                        ast.fix_missing_locations(d)
+                        log.append(f'{fn.name}: completion callback lambda spelled as the nested function {name}')
+                        k += 1
+                        break
+            k += 1
+
+
 def _next_to_loop(fn: ast.AST, log: list[str]) -> None:
     """N17: `x = next((e for t in it if c), None); if x is None: <raise>; return x` is the search loop
     `for t in it: if c: return e` followed by the raise (first match, else the failure)."""
@@ -889,6 +1045,12 @@ def run(tree: ast.Module, mutable: set[str] | None = None, modname: str = '') ->
         keep = {k[0] for k in inv.get(q, [])} | {k[0] for qq, v in inv.items() if qq.startswith(q + '.<locals>.') for k in v}
         _drop_logging(fn)
         n0 = len(log)
+        missing_cb = sorted({qq[len(q) + len('.<locals>.'):].split('.')[0] for qq in inv if qq.startswith(q + '.<locals>.')}
+                            - {n.name for n in ast.walk(fn) if isinstance(n, (ast.FunctionDef, ast.AsyncFunctionDef))})
+        if missing_cb:
+            # the inventory records a nested callback this function no longer has
+            _lambda_callbacks(fn, log, missing_cb)
+        _hoist_walrus(fn, log)
         _next_to_loop(fn, log)
         _drop_else(fn)
         _unroll(fn, consts, log)
